@@ -257,22 +257,22 @@ Proof.
   apply Z.ltb_ge in Hlt. apply Z.ltb_ge in Hgt. rewrite Kmin in Hlt. rewrite Kmax in Hgt.
   unfold fb64_key in Hlt, Hgt. unfold fb64_trunc, fb64_is_inf.
   destruct (fb64_sign v =? 0) eqn:Es.
-  - assert (Hmag : fb64_mag v <= Emax * p52 + Mmax) by lia.
+  - assert (Hmag : fb64_mag v <= Emax * p52 + Mmax) by (clear - Hgt Es; lia).
     destruct (trunc_mag_bound v Emax Mmax (Z.to_N hi) HE2 HE HM Hmag Hb1 Hb2) as [He Ht].
-    replace (fb64_exp v =? 2047) with false by (symmetry; apply N.eqb_neq; lia).
-    split; [reflexivity|]. lia.
-  - assert (Hmag : fb64_mag v <= Emin * p52 + 0) by lia.
+    replace (fb64_exp v =? 2047) with false by (symmetry; apply N.eqb_neq; clear - He HE; lia).
+    split; [reflexivity|]. clear - Ht Hlohi. lia.
+  - assert (Hmag : fb64_mag v <= Emin * p52 + 0) by (clear - Hlt Es; lia).
     destruct (trunc_mag_bound v Emin 0 (Z.to_N (- lo)) HF2 HF ltac:(unfold p52; lia) Hmag
                 ltac:(rewrite N.add_0_r; exact Hb3) Hb4) as [He Ht].
-    replace (fb64_exp v =? 2047) with false by (symmetry; apply N.eqb_neq; lia).
-    split; [reflexivity|]. lia.
+    replace (fb64_exp v =? 2047) with false by (symmetry; apply N.eqb_neq; clear - He HF; lia).
+    split; [reflexivity|]. clear - Ht Hlohi. lia.
 Qed.
 
 Lemma unguarded_i16 v : fb64_is_nan v = false ->
   fb64_lt v fb64_i16_min = false -> fb64_gt v fb64_i16_max = false ->
   fb64_is_inf v = false /\ (-32768 <= fb64_trunc v <= 32767)%Z.
 Proof.
-  apply (unguarded_in_range v fb64_i16_min fb64_i16_max (-32768) 32767 1037 4502500115742720 1038);
+  apply (unguarded_in_range v fb64_i16_min fb64_i16_max (-32768) 32767 1037 4503324749463552 1038);
     try (vm_compute; reflexivity); try (vm_compute; congruence); lia.
 Qed.
 
@@ -320,4 +320,177 @@ Proof.
   - unfold fb64_gt, fb64_lt. rewrite Hn. rewrite andb_true_r. apply andb_false_iff. right.
     apply Z.ltb_ge. rewrite E2. apply fb64_key_of_Z_mono; lia.
   - unfold fb64_to_int. rewrite Hn, Hi, Ht. lia.
+Qed.
+
+(* ---- binary32 -------------------------------------------------------------------------------------- *)
+Lemma fb32_decompose x : x < p32 ->
+  x = fb32_sign x * p31 + fb32_exp x * p23 + fb32_mant x /\ fb32_sign x < 2 /\ fb32_exp x < 256 /\ fb32_mant x < p23.
+Proof. unfold fb32_sign, fb32_exp, fb32_mant, p32, p31, p23. intros H. lia. Qed.
+
+Lemma rne_exact q s : 0 < s -> rne_shift (q * 2 ^ s) s = q.
+Proof.
+  intros Hs. unfold rne_shift. destruct s as [|p]; [lia|].
+  assert (Hp : 2 ^ N.pos p <> 0) by (apply N.pow_nonzero; lia).
+  rewrite N.div_mul, N.mod_mul by exact Hp.
+  assert (Hh : 0 < 2 ^ (N.pos p - 1)) by (apply N.neq_0_lt_0, N.pow_nonzero; lia).
+  replace (2 ^ (N.pos p - 1) <? 0) with false by (symmetry; apply N.ltb_ge; lia).
+  replace (0 =? 2 ^ (N.pos p - 1)) with false by (symmetry; apply N.eqb_neq; lia).
+  reflexivity.
+Qed.
+
+Lemma rne_le_succ m s : rne_shift m s <= m / 2 ^ s + 1.
+Proof.
+  unfold rne_shift. destruct s as [|p]; [cbn; rewrite N.div_1_r; lia|].
+  match goal with |- context [if ?c then _ else _] => destruct c end; lia.
+Qed.
+
+(* widening an f32 and narrowing it again is the identity on every finite pattern; the widened value
+   passes the range checks of to_f32 *)
+Lemma f32_round_trip x : x < p32 -> fb32_exp x < 255 ->
+  fb64_to_f32 (fb32_to_f64 x) = x /\ fb64_is_nan (fb32_to_f64 x) = false /\
+  fb64_lt (fb32_to_f64 x) fb64_f32_min = false /\ fb64_gt (fb32_to_f64 x) fb64_f32_max = false.
+Proof.
+  intros Hx He.
+  destruct (fb32_decompose x Hx) as (Hdec & Hs & _ & Hm).
+  set (s := fb32_sign x) in *. set (e := fb32_exp x) in *. set (m := fb32_mant x) in *.
+  (* the widened pattern as sign/exponent/mantissa *)
+  assert (Hw : exists E M, fb32_to_f64 x = s * p63 + E * p52 + M /\ E < 2047 /\ M < p52 /\
+            (E * p52 + M <= 1150 * p52 + (p23 - 1) * p29) /\
+            fb64_to_f32 (s * p63 + E * p52 + M) = x).
+  { unfold fb32_to_f64. fold s e m.
+    replace (e =? 255) with false by (symmetry; apply N.eqb_neq; lia).
+    destruct (e =? 0) eqn:Ee0.
+    - apply N.eqb_eq in Ee0.
+      destruct (m =? 0) eqn:Em0.
+      + apply N.eqb_eq in Em0. exists 0, 0. rewrite !N.mul_0_l, !N.add_0_r.
+        repeat split; try (unfold p52, p23, p29; lia).
+        unfold fb64_to_f32.
+        destruct (fb64_fields_of s 0 0 Hs ltac:(lia) ltac:(unfold p52; lia)) as (F1 & F2 & F3 & _).
+        rewrite !N.mul_0_l, !N.add_0_r in *.
+        unfold fb64_is_nan, fb64_is_inf, fb64_sig, fb64_e. rewrite F1, F2, F3. cbn [N.eqb andb negb N.max N.leb N.compare].
+        change (1 ?= 897) with Lt. cbv iota.
+        replace (rne_shift 0 (29 + (897 - 1))) with 0 by (vm_compute; reflexivity).
+        cbn. rewrite Hdec, Ee0, Em0. lia.
+      + apply N.eqb_neq in Em0.
+        assert (Hm0 : 0 < m) by lia.
+        pose proof (scaled_sig_bounds m Hm0 ltac:(unfold p52, p23 in *; lia)) as (Hk & Hlo & Hhi).
+        assert (Hk22 : N.log2 m <= 22).
+        { destruct (N.le_gt_cases (N.log2 m) 22) as [H|H]; auto.
+          pose proof (log2_bounds m Hm0) as [Hl _].
+          assert (2 ^ 23 <= 2 ^ N.log2 m) by (apply N.pow_le_mono_r; lia).
+          change (2 ^ 23) with p23 in H0. lia. }
+        set (k := N.log2 m) in *.
+        exists (874 + k), (m * 2 ^ (52 - k) - p52).
+        assert (HM : m * 2 ^ (52 - k) - p52 < p52) by lia.
+        assert (HE : 874 + k < 2048) by lia.
+        split; [lia|]. split; [lia|]. split; [exact HM|]. split.
+        { assert ((874 + k) * p52 <= 896 * p52) by (apply N.mul_le_mono_r; lia). unfold p52, p23, p29 in *. lia. }
+        unfold fb64_to_f32.
+        destruct (fb64_fields_of s (874 + k) _ Hs HE HM) as (F1 & F2 & F3 & _).
+        unfold fb64_is_nan, fb64_is_inf, fb64_sig, fb64_e. rewrite F1, F2, F3.
+        replace (874 + k =? 2047) with false by (symmetry; apply N.eqb_neq; lia).
+        replace (874 + k =? 0) with false by (symmetry; apply N.eqb_neq; lia).
+        cbn [andb]. rewrite N.max_l by lia.
+        replace (897 <=? 874 + k) with false by (symmetry; apply N.leb_gt; lia).
+        replace (p52 + (m * 2 ^ (52 - k) - p52)) with (m * 2 ^ (52 - k)) by lia.
+        replace (29 + (897 - (874 + k))) with (52 - k) by lia.
+        rewrite rne_exact by lia.
+        replace ((1 - 1) * p23 + m) with m by lia.
+        replace (fb32_inf_mag <=? m) with false by (symmetry; apply N.leb_gt; unfold fb32_inf_mag, p23 in *; lia).
+        rewrite Hdec, Ee0. lia.
+    - apply N.eqb_neq in Ee0.
+      exists (e + 896), (m * p29).
+      assert (HM : m * p29 < p52) by (unfold p29, p52, p23 in *; lia).
+      assert (HE : e + 896 < 2048) by lia.
+      split; [lia|]. split; [lia|]. split; [exact HM|]. split.
+      { assert ((e + 896) * p52 <= 1150 * p52) by (apply N.mul_le_mono_r; lia).
+        assert (m * p29 <= (p23 - 1) * p29) by (apply N.mul_le_mono_r; lia). lia. }
+      unfold fb64_to_f32.
+      destruct (fb64_fields_of s (e + 896) _ Hs HE HM) as (F1 & F2 & F3 & _).
+      unfold fb64_is_nan, fb64_is_inf, fb64_sig, fb64_e. rewrite F1, F2, F3.
+      replace (e + 896 =? 2047) with false by (symmetry; apply N.eqb_neq; lia).
+      replace (e + 896 =? 0) with false by (symmetry; apply N.eqb_neq; lia).
+      cbn [andb]. rewrite N.max_l by lia.
+      replace (897 <=? e + 896) with true by (symmetry; apply N.leb_le; lia).
+      replace (p52 + m * p29) with ((p23 + m) * 2 ^ 29) by (change (2 ^ 29) with p29; unfold p52, p23, p29; lia).
+      rewrite rne_exact by lia.
+      replace (e + 896 - 896) with e by lia.
+      replace ((e - 1) * p23 + (p23 + m)) with (e * p23 + m) by (unfold p23; lia).
+      replace (fb32_inf_mag <=? e * p23 + m) with false
+        by (symmetry; apply N.leb_gt; unfold fb32_inf_mag, p23 in *; lia).
+      lia. }
+  destruct Hw as (E & M & Hw & HE & HM & Hmag & Hback).
+  rewrite Hw.
+  destruct (fb64_fields_of s E M Hs ltac:(lia) HM) as (F1 & F2 & F3 & F4).
+  assert (Hnan : fb64_is_nan (s * p63 + E * p52 + M) = false).
+  { unfold fb64_is_nan. rewrite F2. replace (E =? 2047) with false by (symmetry; apply N.eqb_neq; lia). reflexivity. }
+  split; [exact Hback|]. split; [exact Hnan|].
+  assert (Kmax : fb64_key fb64_f32_max = Z.of_N (1150 * p52 + (p23 - 1) * p29)) by (vm_compute; reflexivity).
+  assert (Kmin : fb64_key fb64_f32_min = (- Z.of_N (1150 * p52 + (p23 - 1) * p29))%Z) by (vm_compute; reflexivity).
+  unfold fb64_gt, fb64_lt. rewrite Hnan. cbn [negb andb].
+  replace (fb64_is_nan fb64_f32_min) with false by (vm_compute; reflexivity).
+  replace (fb64_is_nan fb64_f32_max) with false by (vm_compute; reflexivity).
+  cbn [negb andb]. rewrite Kmax, Kmin. unfold fb64_key. rewrite F1, F4.
+  split; apply Z.ltb_ge; destruct (s =? 0); lia.
+Qed.
+
+Lemma rne_29_bound sig : sig <= 16777215 * p29 -> rne_shift sig 29 <= 16777215.
+Proof.
+  intros H. unfold rne_shift.
+  change (2 ^ 29) with 536870912. change (2 ^ (29 - 1)) with 268435456. unfold p29 in H.
+  match goal with |- context [if ?c then _ else _] => destruct c eqn:E end; [|lia].
+  apply orb_true_iff in E. destruct E as [E|E].
+  - apply N.ltb_lt in E. lia.
+  - apply andb_true_iff in E. destruct E as [E _]. apply N.eqb_eq in E. lia.
+Qed.
+
+(* a value that passes the range checks of to_f32 is rounded to a FINITE f32 (it cannot round up to
+   infinity), with its sign *)
+Lemma unguarded_f32 v : fb64_is_nan v = false ->
+  fb64_lt v fb64_f32_min = false -> fb64_gt v fb64_f32_max = false ->
+  fb32_exp (fb64_to_f32 v) < 255 /\ fb32_sign (fb64_to_f32 v) = fb64_sign v.
+Proof.
+  intros Hnan Hlt Hgt.
+  assert (Kmax : fb64_key fb64_f32_max = Z.of_N (1150 * p52 + (p23 - 1) * p29)) by (vm_compute; reflexivity).
+  assert (Kmin : fb64_key fb64_f32_min = (- Z.of_N (1150 * p52 + (p23 - 1) * p29))%Z) by (vm_compute; reflexivity).
+  unfold fb64_gt, fb64_lt in Hlt, Hgt. rewrite Hnan in Hlt, Hgt.
+  replace (fb64_is_nan fb64_f32_min) with false in Hlt by (vm_compute; reflexivity).
+  replace (fb64_is_nan fb64_f32_max) with false in Hgt by (vm_compute; reflexivity).
+  cbn [negb andb] in Hlt, Hgt. apply Z.ltb_ge in Hlt. apply Z.ltb_ge in Hgt.
+  rewrite Kmin in Hlt. rewrite Kmax in Hgt. unfold fb64_key in Hlt, Hgt.
+  assert (Hmag : fb64_mag v <= 1150 * p52 + (p23 - 1) * p29) by (destruct (fb64_sign v =? 0); lia).
+  clear Hlt Hgt Kmax Kmin.
+  rewrite fb64_mag_fields in Hmag.
+  assert (Hm : fb64_mant v < p52) by (unfold fb64_mant, p52; lia).
+  assert (He : fb64_exp v <= 1150).
+  { destruct (N.le_gt_cases (fb64_exp v) 1150) as [H|H]; auto.
+    assert (1151 * p52 <= fb64_exp v * p52) by (apply N.mul_le_mono_r; lia). unfold p52, p23, p29 in *. lia. }
+  pose proof (fb64_sign_lt2 v) as Hs.
+  unfold fb64_to_f32. rewrite Hnan.
+  unfold fb64_is_inf. replace (fb64_exp v =? 2047) with false by (symmetry; apply N.eqb_neq; lia).
+  cbn [andb].
+  assert (Hsig : fb64_sig v < 2 * p52) by (unfold fb64_sig; destruct (fb64_exp v =? 0); unfold p52 in *; lia).
+  set (mag32 := (_ - 1) * p23 + rne_shift (fb64_sig v) _).
+  assert (Hb : mag32 < fb32_inf_mag).
+  { unfold mag32, fb64_e.
+    destruct (897 <=? N.max (fb64_exp v) 1) eqn:E897.
+    - apply N.leb_le in E897.
+      assert (Hexp : N.max (fb64_exp v) 1 = fb64_exp v) by lia. rewrite Hexp in *.
+      destruct (N.eq_dec (fb64_exp v) 1150) as [E|E].
+      + rewrite E in *.
+        assert (Hs2 : fb64_sig v <= 16777215 * p29).
+        { unfold fb64_sig. rewrite E. cbn [N.eqb]. unfold p52, p23, p29 in *. lia. }
+        pose proof (rne_29_bound _ Hs2). unfold fb32_inf_mag, p23. lia.
+      + pose proof (rne_le_succ (fb64_sig v) 29) as Hr. change (2 ^ 29) with p29 in Hr.
+        assert (fb64_sig v / p29 <= 16777215) by (unfold p29, p52 in *; lia).
+        assert ((fb64_exp v - 896 - 1) * p23 <= 252 * p23) by (apply N.mul_le_mono_r; lia).
+        unfold fb32_inf_mag, p23 in *. lia.
+    - apply N.leb_gt in E897.
+      pose proof (rne_le_succ (fb64_sig v) (29 + (897 - N.max (fb64_exp v) 1))) as Hr.
+      pose proof (div_pow2_le (fb64_sig v) 30 (29 + (897 - N.max (fb64_exp v) 1)) ltac:(lia)) as Hd.
+      change (2 ^ 30) with 1073741824 in Hd.
+      assert (fb64_sig v / 1073741824 <= 8388607) by (unfold p52 in *; lia).
+      unfold fb32_inf_mag, p23. lia. }
+  replace (fb32_inf_mag <=? mag32) with false by (symmetry; apply N.leb_gt; exact Hb).
+  clearbody mag32. unfold fb32_exp, fb32_sign, fb32_inf_mag, p31, p23 in *. lia.
 Qed.
